@@ -71,8 +71,8 @@ def run_case(case):
     if r0["cls"] != "ok":
         return ("unspecified", None)
     kind, op, side = r0["kind"], r0["op"], r0["side"]
-    ua = A.unit_text({r0["ua"]: 1}) if r0["ua"] != "-" else None
-    ub = A.unit_text({r0["ub"]: 1}) if r0["ub"] != "-" else None
+    ua = A.unit_text({r0["ua"]: 1}) if r0["ua"] not in ("-", "") else None
+    ub = A.unit_text({r0["ub"]: 1}) if r0["ub"] not in ("-", "") else None
     try:
         with warnings.catch_warnings():
             warnings.simplefilter("ignore")
@@ -110,6 +110,9 @@ def run_case(case):
                 res = _mk("Q", [r["a"] for r in recs], ua)
                 res.value(ub)
                 res.value(ub)
+            elif kind == "rebase":
+                res = _mk("Q", [r["a"] for r in recs], f"{ua}*{ub}")
+                res.rebase()
             elif kind == "qcons":
                 res = _mk("Q", [r["a"] for r in recs], f"{ua}/{ub}")
             elif kind == "qdiv":
@@ -246,6 +249,13 @@ def table_scenarios(rnd, n):
             scen.append(dict(num="-", kind="conv", op="to", side="q", a=mag(), b={"v": [1, 1], "e": []}, p=[1, 1], ua=ua, ub=ub))
         elif r < 0.4:
             scen.append(dict(num="-", kind="query", op="value", side="q", a=mag(), b={"v": [1, 1], "e": []}, p=[1, 1], ua=ua, ub=ub))
+        elif r < 0.44:
+            scen.append(dict(num="-", kind="rebase", op="rebase", side="q", a=mag(), b={"v": [1, 1], "e": []}, p=[1, 1], ua=ua, ub=ub))
+        elif r < 0.47:
+            ang = rnd.choice(["rad", "m:rad"])
+            used.add(ang)
+            scen.append(dict(num="-", kind=rnd.choice(["conv", "query"]), op="to", side="q", a=mag(), b={"v": [1, 1], "e": []}, p=[1, 1],
+                             ua="", ub=ang))
         elif r < 0.5:
             scen.append(dict(num="-", kind="qcons", op="ctor", side="q", a=mag(), b={"v": [1, 1], "e": []}, p=[1, 1], ua=ua, ub=ub))
         elif r < 0.7:
